@@ -426,6 +426,11 @@ class SimSocket(object):
         f = w.fault('close')
         w.rec('close', self.sid, f or ('again' if self.closed else 'ok'))
         self.closed = True
+        hook = getattr(w, 'close_hook', None)
+        if hook is not None:
+            # stands for what another thread does while this one is inside close() (it may block there: SO_LINGER)
+            w.close_hook = None
+            hook(self)
         if f:
             raise _mkerr(f)
 
